@@ -628,6 +628,37 @@ pub fn gen_c03(rng: &mut Rng, thorough: bool) -> Vec<Tagged> {
             out.push((format!("{}-combo-rank{}", opt.kind(), rank), Case::OptHistory { opt: opt.clone(), vals: vec![vec![vec![w]]], steps }));
         }
     }
+    // large extents on every rank (beyond any block / lane size, not multiples of 8/32/64), every
+    // optimizer kind; histories whose gradient is exactly zero on the first steps (state stays 0) and
+    // whose first call already has a step number > 1; huge step numbers
+    for kind in 0..5 {
+        for (ri, shape) in [Shape::Single(257), Shape::Double(130, 3), Shape::Triple(33, 2, 3)].iter().enumerate() {
+            let opt = rand_opt(rng, kind);
+            let n = shape_numel(shape);
+            let w = tensor_of_shape(shape, &rng.vec(n, 2));
+            let steps: Vec<(usize, usize, bool, i32, Tensor)> = [1, 2, 3].iter().map(|s| (0usize, 0usize, false, *s, tensor_of_shape(shape, &rng.vec(n, 2)))).collect();
+            out.push((format!("{}-large-rank{}", opt.kind(), ri + 1), Case::OptHistory { opt, vals: vec![vec![vec![w]]], steps }));
+        }
+        for variant in 0..3 {
+            let opt = match kind {
+                1 => Opt::SGDM { lr: 0.1, momentum: 0.9, dampening: *rng.pick(&[0.25f32, 0.5]), decay: None },
+                k => rand_opt(rng, k),
+            };
+            let shape = [Shape::Single(4), Shape::Double(2, 2), Shape::Triple(1, 2, 2)][variant].clone();
+            let w = tensor_of_shape(&shape, &rng.vec(4, 2));
+            let zero = tensor_of_shape(&shape, &[0.0, 0.0, 0.0, 0.0]);
+            let sparse = tensor_of_shape(&shape, &[0.0, 0.5, 0.0, -0.25]);
+            let dense = tensor_of_shape(&shape, &rng.vec(4, 2));
+            let steps = vec![
+                (0usize, 0usize, false, 1, zero.clone()), (0, 0, false, 2, sparse.clone()), (0, 0, false, 3, dense.clone()),
+                (0, 0, false, 3, zero), (0, 0, false, 1000, sparse), (0, 0, false, 100000, dense),
+            ];
+            out.push((format!("{}-zero-then-nonzero-rank{}", opt.kind(), variant + 1), Case::OptHistory { opt: opt.clone(), vals: vec![vec![vec![w.clone()]]], steps }));
+            // fresh state, first call with step number 7
+            let g = tensor_of_shape(&shape, &rng.vec(4, 2));
+            out.push((format!("{}-first-call-step7-rank{}", opt.kind(), variant + 1), Case::OptHistory { opt, vals: vec![vec![vec![w]]], steps: vec![(0, 0, false, 7, g.clone()), (0, 0, false, 8, g)] }));
+        }
+    }
     // wrong slot / rank mismatch is refused
     let opt = rand_opt(rng, 2);
     out.push(("adam-bad-slot".into(), Case::OptHistory { opt: opt.clone(), vals: vec![vec![vec![t1(vec![1.0, 2.0])]]], steps: vec![(0, 0, true, 1, t1(vec![0.5, 0.5]))] }));
